@@ -78,7 +78,6 @@ type world struct {
 	dupsCompared   int
 	overlaps       int
 	quiescentExact int
-	modelVersion   int // bumped whenever a reply that can change client state is applied
 	prevCnt        [][2]int
 }
 
@@ -275,7 +274,6 @@ type delivery struct {
 	stale       bool // a later request of the same sequence chain had started before this one ended
 	ioStart     ioExpect
 	holderStart string
-	verStart    int // model version when the delivery started
 	clEpoch     int
 	clBusy      bool
 }
@@ -403,6 +401,17 @@ func (w *world) events() []simsync.Event {
 		return simsync.Event{Key: fmt.Sprintf("advance %v", d), Weight: weight, Fire: func() { w.clock.Advance(d) }}
 	}
 	evs := []simsync.Event{adv(time.Second, 2)}
+	// A lane is in a quiet-but-renewing period: let time pass in steps
+	// shorter than the lease.
+	for _, c := range w.clients {
+		for _, ln := range c.lanes {
+			if ln.quietWait && !w.copiesPending() {
+				evs = append(evs, adv(quietStep, 6))
+				goto quietDone
+			}
+		}
+	}
+quietDone:
 	if w.timePressure >= 2 && !w.copiesPending() {
 		evs = append(evs, adv(50*time.Second, 1), adv(enforcedLease+time.Second, 1))
 	}
